@@ -548,6 +548,12 @@ def main(chk):
     rule_integrators(chk)
     rule_accel(chk)
     rule_compile_model(chk)
+    # the compiled integrator steps the arrays through the evaluator's wrapper objects: new arrays must be put into those very objects (rule shared with C03)
+    import importlib.util
+    spec03 = importlib.util.spec_from_file_location('c03mod', os.path.join(os.path.dirname(os.path.abspath(__file__)), 'c03.py'))
+    c03 = importlib.util.module_from_spec(spec03)
+    spec03.loader.exec_module(c03)
+    c03.rule_wrapper(chk, c03.MT.parse_template(c03.TPL))
     chk.assume('Cython executes the emitted module as written; stepper arithmetic is not analysed')
 
 
